@@ -128,7 +128,7 @@ func c10One(c *fw.Ctx, id string, i int) {
 	for _, f := range p.Files {
 		srcs[f.Name] = f.Src
 	}
-	files, info, _, err := p.Check(srcs, p.PkgPath)
+	files, info, selfPkg, err := p.Check(srcs, p.PkgPath)
 	if err != nil {
 		c.Count("inconclusive_program_rejected_by_go_types", 1)
 		return
@@ -353,7 +353,12 @@ func c10One(c *fw.Ctx, id string, i int) {
 		newSelf[p.Files[k].Name] = out
 	}
 	check := func(srcs map[string]string, pkgPath string, what string) {
-		nf, ninfo, _, err := (&gen.Program{Fset: token.NewFileSet()}).Check(srcs, pkgPath)
+		var extra map[string]*types.Package
+		if what == "cross-package" {
+			// moved code may refer to exported members of the package it came from
+			extra = map[string]*types.Package{p.PkgPath: selfPkg}
+		}
+		nf, ninfo, _, err := (&gen.Program{Fset: token.NewFileSet()}).CheckWith(srcs, pkgPath, extra)
 		if err != nil {
 			var all []string
 			for n, s := range srcs {
